@@ -193,7 +193,7 @@ def step(sym: dict, data: Any, ctx: Dict[str, Any], out: Outcome) -> Any:
         return ("C", items)
     if kind == "sweep_op":
         (var, seq), = sym["vars"].items()
-        items = [float_op(sym["proc"], data[1], {**p, "factor": t}, ctx, log) for t in seq]
+        items = [float_op(sym["proc"], data[1], {**p, sym.get("swept", "factor"): t}, ctx, log) for t in seq]
         ctx[f"{var}_values"] = list(seq)
         return ("C", items)
     if kind == "sweep_probe":
